@@ -3,8 +3,8 @@
     Proved: the macro's obligations on the emitted signature. That rustc accepts the expansion (type
     and borrow checking) is rustc's behaviour: sampled by compiling the corpus, not proved. *)
 From Coq Require Import List String Ascii Bool.
-From Entrait Require Import Tok Syn Opts Split FnParams Convert Codegen Expand Proj Proj2 Proj3 Known Examples.
-From Entrait.Proofs Require Import Base Shapes NonVac PC03 PC04 PC03b.
+From Entrait Require Import Tok Syn Tie Opts Split FnParams Convert Codegen Expand Proj Proj2 Proj3 Known Examples.
+From Entrait.Proofs Require Import Base PTie Shapes NonVac PC03 PC04 PC03b.
 From Entrait Require Import ProjSide.
 Import ListNotations.
 Local Open Scope list_scope.
@@ -139,6 +139,33 @@ Example c03_hrtb_example :
      [TG Paren [TId "for"; pc "<"; pc "'"; TId "x"; pc ">"; TId "P"; pc "<"; pc "'"; TId "x"; pc ">"]]]%string.
 Proof. vm_compute. reflexivity. Qed.
 Print Assumptions c03_hrtb_example.
+
+(** The tie for the fields the print round trip does not cover (coq/Tie.v, evaluated on every record of every run): a where
+    predicate that passes the check is, token for token, binder ++ bounded type ++ ":" ++ its bounds joined by "+", so the
+    per-bound lists and the binder that [c03_deps_bounds_exact] speaks about are the parts of the predicate the user wrote. *)
+Theorem c03_bounds_are_the_predicates_own_tokens : forall w,
+  wp_is_type w = true -> wpred_ok w = true ->
+  exists ty, bounded_ok (wp_bounded w) ty = true /\
+    (wp_toks w = wp_binder w ++ ty ++ [pc ":"] ++ join [plus] (wp_bounds w) \/
+     wp_toks w = wp_binder w ++ ty ++ [pc ":"] ++ join [plus] (wp_bounds w) ++ [plus]).
+Proof. exact wpred_ok_decomposes. Qed.
+Print Assumptions c03_bounds_are_the_predicates_own_tokens.
+
+Theorem c03_bounded_ident_classification : forall q l n first s,
+  path_class_ok q l n first [TId s] = true -> q = false /\ l = false /\ n = 1 /\ first = s.
+Proof. exact path_class_single. Qed.
+Print Assumptions c03_bounded_ident_classification.
+
+(** [where for<'x> D: R<'x> + Send] as synx hands it over *)
+Example c03_fields_example :
+  wpred_ok (mkWP true (BPath false false 1 "D") [[TId "R"; pc "<"; pc "'"; TId "x"; pc ">"]; [TId "Send"]]
+              [TId "for"; pc "<"; pc "'"; TId "x"; pc ">"; TId "D"; pc ":"; TId "R"; pc "<"; pc "'"; TId "x"; pc ">"; pc "+"; TId "Send"]
+              [TId "for"; pc "<"; pc "'"; TId "x"; pc ">"]) = true /\
+  wpred_ok (mkWP true (BPath false false 1 "E") [[TId "R"; pc "<"; pc "'"; TId "x"; pc ">"]; [TId "Send"]]
+              [TId "for"; pc "<"; pc "'"; TId "x"; pc ">"; TId "D"; pc ":"; TId "R"; pc "<"; pc "'"; TId "x"; pc ">"; pc "+"; TId "Send"]
+              [TId "for"; pc "<"; pc "'"; TId "x"; pc ">"]) = false.
+Proof. vm_compute. split; reflexivity. Qed.
+Print Assumptions c03_fields_example.
 
 Example c03_nonvacuous :
   forallb (nonvacuous view_C03) [ex_fn; ex_fn_conc; ex_fn_nodeps; ex_fn_export; ex_mod] = true.
